@@ -1222,7 +1222,9 @@ run_task(_task_t t)
 	}
 
 	/* finally fork out our child */
-	if (UNLIKELY(posix_spawn(&r, echsx, &fa, NULL, args, env) < 0)) {
+	if (UNLIKELY((errno = posix_spawn(
+			      &r, echsx, &fa, NULL, args, env)) != 0)) {
+		/* posix_spawn() returns the error number */
 		ECHS_ERR_LOG("cannot fork: %s", STRERR);
 		r = -1;
 	}
